@@ -5,7 +5,7 @@ p=$1
 case "$p" in
   C01|C02|C04) f=/verif/replays_known/C02_C04_early_payload_hypotheses_test.go.txt; run=TestHypothesis ;;
   C11) f=/verif/replays_known/C11_redelivered_changeview_test.go.txt; run=TestProbeRedeliveredCV ;;
-  C19) f=/verif/replays_known/C19_recovery_precommits_dropped_test.go.txt; run=TestKnownC19; pkg=./internal/consensus; dst=/repo/internal/consensus ;;
+  C19) f=/verif/replays_known/C19_known_demos_test.go.txt; run=TestKnownC19; pkg=./internal/consensus; dst=/repo/internal/consensus ;;
   *) exit 0 ;;
 esac
 pkg=${pkg:-.}; dst=${dst:-/repo}
@@ -14,3 +14,14 @@ cp $f $d/zz_known_demo_test.go
 printf '{"Replace":{"%s/zz_known_demo_test.go":"%s/zz_known_demo_test.go"}}' $dst $d > $d/ov.json
 (cd /repo && PATH=/opt/veriftools/go1.26.8/bin:$PATH GOFLAGS=-mod=mod GOPROXY=off GOSUMDB=off GOTOOLCHAIN=local go test -overlay $d/ov.json -vet=off -count=1 -timeout 120s -run "$run" -v $pkg 2>&1 | grep -E "DEFECT|NOT REPRODUCED|view|^(ok|FAIL|---)" | sed 's/^ *//' | cut -c1-220 | head -40)
 rm -rf $d
+
+if [ "$p" = "C19" ]; then
+  # A-GOB across processes: the same payload hashed in two processes with different encoding histories
+  for o in plain other; do
+    d=$(mktemp -d /tmp/govc-demo-XXXXXX)
+    cp /verif/replays_known/C19_gob_type_ids_test.go.txt $d/zz_known_demo_test.go
+    printf '{"Replace":{"/repo/internal/consensus/zz_known_demo_test.go":"%s/zz_known_demo_test.go"}}' $d > $d/ov.json
+    (cd /repo && GOVC_GOB_ORDER=$o PATH=/opt/veriftools/go1.26.8/bin:$PATH GOFLAGS=-mod=mod GOPROXY=off GOSUMDB=off GOTOOLCHAIN=local go test -overlay $d/ov.json -vet=off -count=1 -timeout 120s -run TestKnownC19GobTypeIDs -v ./internal/consensus 2>&1 | grep -o "GOB-ORDER.*")
+    rm -rf $d
+  done
+fi
